@@ -294,7 +294,7 @@ pub fn c06(ctx: &Ctx) -> (CheckMeta, Outcome) {
     let (dc, dr) = if ctx.thorough { (16384, 128) } else { (1024, 16) };
     let items = std::sync::Arc::new(items_for(&all, dc, dr, ctx.seed, 4, true));
     let mut o2 = run_streams(cfgs, items, ctx, &["C06", "C03"]);
-    o2.violations.retain(|v| v.property == "C06" || v.symptom == "position");
+    o2.violations.retain(|v| v.property == "C06" || v.symptom.contains("position"));
     for v in o2.violations.iter_mut() {
         v.property = "C06".into();
     }
@@ -324,7 +324,7 @@ pub fn c06(ctx: &Ctx) -> (CheckMeta, Outcome) {
             }
         }
         let mut o3 = run_streams(cfgs, std::sync::Arc::new(items), ctx, &["C10"]);
-        o3.violations.retain(|v| v.symptom == "position" || v.symptom == "length");
+        o3.violations.retain(|v| v.symptom.contains("position") || v.symptom == "length");
         for v in o3.violations.iter_mut() {
             v.property = "C06".into();
         }
